@@ -9,6 +9,7 @@ def generate(tier, rng, pid='C01'):
     enums += strcorpus.build_soup(rng, tier, pid, prefix_pool=(None, None, 'p_'))
     ovs = strcorpus.overlap_enums(pid)
     enums += ovs
+    enums += strcorpus.shadowed_by_disabled(pid, ['EnumString'], ['parse'])
     enums.append(strcorpus.clash_enum(pid, ['EnumString'], ['parse'], kinds=(('unit', []), ('tuple', ['u8']))))
     info = strcorpus.query_model(enums)
     c = Corpus()
